@@ -276,6 +276,24 @@ func (cr *checkRun) run(start time.Time) int {
 			cr.res[o] = r
 		}
 	}
+	// obligations that discharge on the baseline tree and still have no answer get a last,
+	// long, lightly parallel attempt: a busy machine must not turn a slow proof into an alarm
+	if base := loadBaseline(cr.prop); base != nil {
+		var last []*Obl
+		for _, o := range cr.obls {
+			if r := cr.res[o]; (r.Status == "timeout" || r.Status == "unknown") && base[o.Name] {
+				last = append(last, o)
+			}
+		}
+		if len(last) > 0 && len(last) <= 12 {
+			sub := filepath.Join(cr.work, "retry2")
+			os.MkdirAll(sub, 0o755)
+			r3 := dischargeAll(last, sub, 240*time.Second, false, 4)
+			for o, r := range r3 {
+				cr.res[o] = r
+			}
+		}
+	}
 	return cr.judge(start, stale)
 }
 
